@@ -25,13 +25,49 @@ def run(rep, tier):
         'struct{a := 1, b := "x", c := 2.5, d := [1], e := ()}',
         'match 1 { x: int|string => { x }, => { 0 }, }',
         's := struct{a := 1, b := 2}; t := struct{b := 2, a := 1}; (s == t, [s] == [t])',
+        # acceptance must not depend on which member of a union is visited first
+        'f := (src: () -> (bool, any) | int) -> int { for x in src { } return 0 }',
+        'f := (src: () -> (bool, any) | int) -> () -> (bool, int) { return src @ (x: any) -> int { return 1 } }',
+        'f := (src: () -> (bool, any) | [int]) -> [any] { return src $] }',
+        'f := (src: () -> (bool, any) | (int) -> int) -> any { return src $0 (a: any, c: any) -> any { return a } }',
+        'f := (src: () -> (bool, int) | () -> (bool, any) | string) -> int { return src $+ }',
+        'f := (src: [int] | [any] | int) -> any { return src[0] }',
+        'f := (src: (int, any) | (any, int) | string) -> any { return src.0 }',
+        'f := (src: mut int | mut any | int) -> any { return *src }',
+        'f := (src: struct{a: int, b: any} | struct{a: any, b: int} | int) -> any { return src.a }',
+        # values whose type is a union with multi-field struct members, printed and compared
+        'x := [struct{a := 1, b := 2.5, c := "x", d := true}, 3]; y := [struct{d := true, c := "x", b := 2.5, a := 1}, 3]; (x == y, x, y)',
+        # an instruction reached twice must not remember the first time
+        'ints := (source: () -> (bool, any)) -> [int] { return source ? int $] }; (ints([1, 2.5, 3]~), ints([10, "a", 20]~))',
+        'source := [1, 2.5, 3, "x", 4]~; ints := source ? int; ints $]',
+        '[7, 8]~ $]',
+        '[1, 2, 3]~ @ ((x: int) -> int { return x + 1 }) $+',
+        '([1, 2, 3, 4]~ ? (x: int) -> bool { return x > 1 }) $]',
+        '[1, 2, 3, 4]~ \\ (x: int) -> bool { return x > 2 }',
+        '[1, 2, 3]~ $10 (a: int, c: int) -> int { return a - c }',
+        'c := mut 0; for x in [1, 2, 3]~ { c += x }; *c',
+        'f := () -> [int] { return [1, 2, 3]~ $] }; (f(), f())',
+        'data := [4, 5, 6]; total := () -> int { return data~ $+ }; (total(), total())',
+        'n := mut 0; for i in [1, 2, 3]~ { for j in [10, 20]~ { n += 1 } }; *n',
     ]
     cases = ['(run-ty "' + l7_programs.esc(sast.program(p)) + '")' for p in progs]
     cases += ['(run-ty "' + l7_programs.esc(s) + '")' for s in extra_src]
     # type computations with members inserted in different orders
     U = typegen.universe(rnd, 60, 40)
     multis = [t for t in U if t.startswith("(multi")]
-    for t in multis[:40]:
+    # crafted unions: an iterator / indexable / cell / struct member whose answer would absorb the
+    # others next to a member for which the query is undefined; structs with several fields
+    IT = lambda e: f"(fun () (tup bool {e}))"
+    ST = "(struct (a int) (b float) (c string) (d bool) (e (arr int)))"
+    crafted = [f"(multi {IT('any')} int)", f"(multi {IT('any')} (arr int))", f"(multi {IT('any')} (fun (int) int))",
+               f"(multi {IT('any')} {IT('int')})", f"(multi {IT('any')} {IT('int')} string)",
+               f"(multi {IT('never')} {IT('float')})", f"(multi (fun () never) {IT('float')})",
+               "(multi (arr any) (arr int) int)", "(multi (arr any) string)", "(multi (mut any) (mut int) int)",
+               "(multi (tup int any) (tup any int) string)", "(multi (fun (int) any) (fun (any) int) int)",
+               f"(multi {ST} int)", f"(multi {ST} (struct (a int) (b float)) string)",
+               f"(multi (arr {ST}) (arr int))", f"(multi (mut {ST}) int)"]
+    multis = crafted + multis
+    for t in multis[:56]:
         parts = sast_split(t)
         for perm in itertools.islice(itertools.permutations(parts), 6):
             cases.append(f"(ty-eq {t} (multi {' '.join(perm)}))")
@@ -63,6 +99,19 @@ def run(rep, tier):
             rep.violations.append({"property": "C05", "lane": "L5d",
                                    "what": f"the same computation gave {len(outs)} different outcomes over {len(runs)} runs: " + " | ".join(sorted(o[:120] for o in outs)),
                                    "case": c})
+    # the same parsed program executed twice: the second execution must not see the first
+    ex = ['(exec-twice "' + l7_programs.esc(sast.program([["set", "leak", ["expr", ["c", ["i", 3]]]]] + p)) + '")' for p in progs[:len(corpus.CORPUS) + 60]]
+    ex += ['(exec-twice "leak := 3; ' + l7_programs.esc(s) + '")' for s in extra_src]
+    for c, o in zip(ex, common.run_cases(common.HARNESS, ex, shards=4, timeout=300)):
+        parts = o.split(" || ")
+        rep.evaluations += 1
+        if o.startswith(("reject", "!")) or len(parts) != 3:
+            continue
+        rep.compared += 1
+        if parts[0] != parts[1]:
+            rep.violations.append({"property": "C05", "lane": "L5d",
+                                   "what": "executing the same parsed program a second time gives another outcome: " + o[:300], "case": c})
+    rep.count("L5d.exec-twice", len(ex))
     rep.count("L5d.cases", len(cases))
     rep.count("L5d.runs", len(runs))
     rep.sample({"lane": "L5d", "case": cases[len(progs)], "outcomes": sorted({r[len(progs)] for r in runs})})
